@@ -468,6 +468,7 @@ class QRStage(Stage):
         self.inflight: set[int] = set()
         self.expect_deliver: deque = deque()
         self.n_overpoll_reject = 0
+        self.grace = False          # limit raised from outside the loop: stranding judged after the next trigger
         self._reset_instant()
 
     def _reset_instant(self):
@@ -545,11 +546,17 @@ class QRStage(Stage):
                 self._deliver(ev)
             elif isinstance(ev, QueueNotifyEvent):
                 self.n_notify += 1
+                self._end_grace()
         elif role == "worker":
             if isinstance(ev, ProcessContinuation):
                 self._continuation(ev)
             else:
                 self._start(ev)
+
+    def _end_grace(self):
+        if self.grace:
+            self.grace = False
+            self.ctx.hit("probe.outside_grace_ended_by_trigger")
 
     def _depth_checks(self, where):
         if len(self.policy) != len(self.ref):
@@ -717,6 +724,7 @@ class QRStage(Stage):
         self.move(rid, "service", "done", "completion")
         self.active_w -= self.weight(rid)
         self.f_completion = True
+        self._end_grace()
         self.inst.add("completion")
         self.ctx.emit(rid, self.next_key, self.cls)
         if self.comp_active() != self.active_w:
@@ -792,7 +800,7 @@ class QRStage(Stage):
         if self.waiting:
             self.n_waited += 1
             h = self.ref.head(prev_ns)
-            if h is not None:
+            if h is not None and not self.grace:
                 w = self.weight(h["rid"])
                 limit = self.limit_after(prev_ns)
                 if limit - self.active_w >= w:
@@ -1374,6 +1382,25 @@ class Pipeline:
                 return
             st.ctl_limit(ev.context["limit"])
             return
+
+    def outside_capacity_change(self, stage, op, limit, when):
+        """a capacity change made by user code while no event loop is executing"""
+        st = self.stages[stage]
+        if not isinstance(st, QRStage) or st.F is None:
+            return
+        self.ctx.hit("probe.outside_change_before_run" if when == "before-run" else "probe.outside_change_while_paused")
+        if op == "limit" and isinstance(st.model, DynamicConcurrency):
+            before = st.limit
+            st.model.set_limit(limit)
+            st.ctl_limit(limit)
+            if st.limit > before:
+                # 7d4ab37 documents: a raise outside the loop pulls work only at the next notify/completion
+                st.grace = True
+                st.f_raise = False
+                if st.waiting:
+                    self.ctx.hit("probe.outside_limit_raised_under_backlog")
+        else:
+            st.F.capacity_changed()
 
     def on_time_advance(self, new_time):
         prev = self.ctx.now_ns
